@@ -64,19 +64,31 @@ def needle_pda(rng, depth=None):
     return {'kind': 'pda', 'Q': Q, 'Sigma': ['a'], 'Gamma': ['x', 'y'], 'delta': delta, 'q0': 's0', 'F': [Q[-1]], 'eps': e}
 
 
-def big_closure_pda(rng, depth=None):
+def big_closure_pda(rng, depth=None, needle=None):
     """A PDA whose epsilon-closure is FINITE but large: a full binary tree of stacks of bounded depth (2^(d+1)-1
-    configurations of the tree, plus what follows), with accepting computations that are discovered late in a
-    breadth-first exploration.  Used with closure limits just below / above the closure size, including limits
-    above the default 1000 (the limit is an ambient setting that may be raised after import)."""
-    d = depth or rng.choice([8, 9, 9, 10])
+    configurations).  Two flavours: (a) accept by reading `a` on top of one symbol at the deepest level (many accepting
+    computations, discovered from half-way through a breadth-first exploration); (b) *needle*: accept only by popping one
+    particular stack pattern, by default the one a breadth-first search in sorted order discovers LAST (y^d).  Used with
+    closure limits just below / above the closure size, including limits above the default 1000 (the limit is an
+    ambient setting that may be raised after import)."""
+    d = depth or rng.choice([8, 9, 9, 10, 10])
+    if needle is None:
+        needle = rng.random() < 0.6
     e = 'ε'
     Q = ['s%d' % i for i in range(d + 1)] + ['acc']
     delta = []
     for i in range(d):
         delta.append([Q[i], e, e, [[Q[i + 1], 'x'], [Q[i + 1], 'y']]])
-    pat = rng.choice('xy')
-    delta.append([Q[d], 'a', pat, [['acc', e]]])
-    if rng.random() < 0.5:
-        delta.append(['acc', e, rng.choice('xy'), [['acc', e]]])
-    return {'kind': 'pda', 'Q': Q, 'Sigma': ['a'], 'Gamma': ['x', 'y'], 'delta': delta, 'q0': 's0', 'F': ['acc'], 'eps': e}
+    if not needle:
+        pat = rng.choice('xy')
+        delta.append([Q[d], 'a', pat, [['acc', e]]])
+        if rng.random() < 0.5:
+            delta.append(['acc', e, rng.choice('xy'), [['acc', e]]])
+        return {'kind': 'pda', 'Q': Q, 'Sigma': ['a'], 'Gamma': ['x', 'y'], 'delta': delta, 'q0': 's0', 'F': ['acc'], 'eps': e}
+    pat = ['y'] * d if rng.random() < 0.7 else [rng.choice('xy') for _ in range(d)]
+    P = ['p%d' % i for i in range(1, d)]
+    chain = [Q[d]] + P + ['acc']
+    for i, c in enumerate(pat):          # pop the pattern, top first
+        delta.append([chain[i], e, c, [[chain[i + 1], e]]])
+    delta.append(['acc', 'a', e, [['acc', e]]])
+    return {'kind': 'pda', 'Q': Q + P, 'Sigma': ['a'], 'Gamma': ['x', 'y'], 'delta': delta, 'q0': 's0', 'F': ['acc'], 'eps': e}
